@@ -43,10 +43,10 @@ def run(ctx):
     else:
         exe = lib.build_driver("c09_priors")
         traces = []
-        seeds = [ctx.seed] if q else [ctx.seed, ctx.seed + 100, ctx.seed + 200]
+        seeds = [ctx.seed] if q else [ctx.seed, ctx.seed + 100]
         for sd in seeds:
             traces.append(_record(ctx, exe, "exact", 240 if q else 1600, 1, sd, "exact-%d.ndjson" % sd))
-            traces.append(_record(ctx, exe, "rel", 200 if q else 1400, 1, sd, "rel-%d.ndjson" % sd))
+            traces.append(_record(ctx, exe, "rel", 200 if q else 1200, 1, sd, "rel-%d.ndjson" % sd))
         if not q:
             # the same drivers against the ASan/UBSan-instrumented STIR libraries: an access outside the
             # image (border voxels) aborts the run and leaves an Abort line
